@@ -4,7 +4,7 @@ proof:   coq/theories/C16/*.v, Properties_C16.v
          (in-circle laws; GEOS expression = -incircle; checker soundness clause by clause; edge-manifold + boundary cycle =>
          area identity; separating-edge test => interior-disjoint; Voronoi vertex test suffices for convex cells;
          isInCircleRobust on binary64: sound on the 2^25 grid, NOT complete (error band) — refutation witness)
-tie G:   translator units TP_isInCircleRobust / TP_isInCircleNonRobust / TP_triArea (translator/units/C16.py), generated
+tie G:   translator units TP_isInCircleRobust / TP_isInCircleNonRobust (translator/units/C16.py), generated
          definitions proved equal to the hand model C16/B64Defs.v
 tie M/R: the extracted checkers (ocaml/drv_C16.ml) judge the outputs of GEOSDelaunayTriangulation_r (triangles + edges,
          tolerance 0 and > 0), GEOSConstrainedDelaunayTriangulation_r and GEOSVoronoiDiagram_r (harness/c16.cpp); the extracted
@@ -470,7 +470,7 @@ def gen_holes(rng, shell, want):
 
 
 def gen_polygon(rng, quick):
-    fam = rng.choice(['convex', 'monotone', 'monotone', 'star', 'comb', 'spiral', 'rect', 'tri', 'holes', 'holes', 'holes', 'bigthin'])
+    fam = rng.choice(['convex', 'monotone', 'monotone', 'star', 'comb', 'spiral', 'rect', 'tri', 'holes', 'holes', 'holes', 'holetree', 'bigthin'])
     sc = 1
     if fam == 'convex': shell = convex_ring(rng, rng.randint(3, 12), rng.choice([3, 10, 1000]))
     elif fam == 'monotone': shell = monotone_ring(rng, rng.randint(3, 14 if quick else 30), rng.choice([2, 5, 50]))
@@ -479,6 +479,15 @@ def gen_polygon(rng, quick):
     elif fam == 'spiral': shell = spiral_ring(rng, rng.randint(2, 5))
     elif fam == 'rect': w, h = rng.randint(1, 9), rng.randint(1, 9); shell = [(0, 0), (w, 0), (w, h), (0, h), (0, 0)]
     elif fam == 'tri': shell = [(0, 0), (rng.randint(1, 9), rng.randint(-3, 3)), (rng.randint(-3, 9), rng.randint(4, 9)), (0, 0)]
+    elif fam == 'holetree':    # a hole touching the shell, further holes touching that hole at its other vertices (tree of touching rings)
+        W = rng.randint(10, 16); shell = [(0, 0), (W, 0), (W, 10), (0, 10), (0, 0)]
+        ax = rng.randint(4, W - 4)
+        A = [(ax, 10), (ax + rng.randint(2, 4), rng.randint(5, 7)), (ax - rng.randint(0, 1), rng.randint(3, 5)), (ax, 10)]
+        if rng.random() < 0.4: A = [(ax, 9)] + A[1:3] + [(ax, 9)]          # not touching the shell after all
+        Bh = [A[2], (A[2][0] - rng.randint(1, 3), A[2][1] + rng.randint(2, 4)), (A[2][0] - rng.randint(1, 3), A[2][1] + rng.randint(0, 2)), A[2]]
+        Ch = [A[1], (A[1][0] + rng.randint(-1, 1), A[1][1] - rng.randint(2, 4)), (A[1][0] - rng.randint(3, 6), A[1][1] - rng.randint(3, 4)), A[1]]
+        tree_holes = [A, Bh, Ch][:rng.choice([2, 3, 3])]
+        rng.shuffle(tree_holes)
     elif fam == 'bigthin':     # long thin polygon at the coordinate bound along a diagonal
         a, b = rng.randint(LIM // 2, LIM), rng.randint(LIM // 2, LIM)
         n = rng.randint(2, 5); ts = sorted(rng.sample(range(-1000, 1000), 2 * n))
@@ -493,7 +502,7 @@ def gen_polygon(rng, quick):
         else: shell = scale_ring(monotone_ring(rng, rng.randint(3, 8), 3), 3)
     if rng.random() < 0.3 and fam not in ('bigthin',):
         shell = add_flat_vertices(rng, shell)
-    holes = gen_holes(rng, shell, rng.randint(1, 4)) if fam == 'holes' else []
+    holes = gen_holes(rng, shell, rng.randint(1, 4)) if fam == 'holes' else tree_holes if fam == 'holetree' else []
     if rng.random() < 0.5:
         shell = shell[::-1]
     holes = [h if rng.random() < 0.5 else h[::-1] for h in holes]
@@ -683,7 +692,7 @@ def run(ctx):
         'polygon validity of generated inputs is decided by the extracted C05 model (Lib/ValidDefs)',
         'binary64 semantics = SpecFloat (round to nearest even), checked bit for bit against the compiled predicate; long double isInCircleNormalized is not modelled']
     ok_build = ctx.build_repo('rel')
-    tr = ctx.translate(['TP_isInCircleRobust', 'TP_isInCircleNonRobust', 'TP_triArea'])
+    tr = ctx.translate(['TP_isInCircleRobust', 'TP_isInCircleNonRobust'])
     ok_coq, ax = ctx.coq_build('Properties_C16')
     ok_coq = fix_axioms_header(ctx, ok_coq, ax)
     drv = ctx.ocaml_driver('C16')
@@ -966,6 +975,8 @@ def eval_constrained(S, cases):
             r['verdict'] = 'INVALID-INPUT'
         elif r['verdict'] == 'MALFORMED':
             r['verdict'] = 'VIOLATION'
+            if r['impl'].startswith('ERR') and 'Unable to find' in r['impl'] and max_touch_degree(r['case'][1]) >= 2:
+                r['verdict'] = 'KNOWN-K4'
         elif d == 'OK':
             r['verdict'] = 'OK'
         elif d.startswith('FAIL'):
@@ -974,6 +985,25 @@ def eval_constrained(S, cases):
         else:
             r['verdict'] = 'VIOLATION'; r['why'] = 'checker did not return a verdict: ' + d[:200]
     return res
+
+
+def on_seg(p, a, b):
+    return det(a, b, p) == 0 and min(a[0], b[0]) <= p[0] <= max(a[0], b[0]) and min(a[1], b[1]) <= p[1] <= max(a[1], b[1])
+
+
+def max_touch_degree(polys):
+    """largest number of other rings of the same polygon that one hole shares a point with (touch graph of the rings)"""
+    best = 0
+    for rings in polys:
+        for i, h in enumerate(rings):
+            if i == 0: continue
+            deg = 0
+            for j, g in enumerate(rings):
+                if i == j: continue
+                if any(on_seg(p, a, b) for p in h[:-1] for a, b in zip(g, g[1:])) or any(on_seg(p, a, b) for p in g[:-1] for a, b in zip(h, h[1:])):
+                    deg += 1
+            best = max(best, deg)
+    return best
 
 
 def shrink_polys(S, case, same):
@@ -1070,6 +1100,14 @@ def do_constrained(S, rng, n, corpus=False):
                         for rings in polys for h in rings[1:] for p in h)
             if touch: st.inc('constrained', 'holes', 'touching')
         ctx.count(('C', r['harness_line']), r.get('ntri', 0) >= 1)
+        if r['verdict'] == 'KNOWN-K4':
+            ent = ctx.known_match(lambda f: f.get('id') == 'C16-K4')
+            if ent:
+                ctx.known_hit(ent)
+                if 'k4_example' not in ctx.notes:
+                    ctx.notes['k4_example'] = dict(harness_line=r['harness_line'], implementation=r['impl'][:200])
+            else:
+                r['verdict'] = 'VIOLATION'; r['why'] = 'constrained triangulation of a valid polygon fails: ' + r['impl'][:200]
         if r['verdict'] == 'VIOLATION':
             report_constrained(S, r)
             if S['nviol'] > 8:
@@ -1166,7 +1204,7 @@ def report_voronoi(S, r):
             ctx.known_hit(ent); S['st'].inc('voronoi', 'band_failures_by_family', fam)
             if 'k3_example' not in ctx.notes:
                 ctx.notes['k3_example'] = dict(sites=cur, env=env, flags=flags, checker=rr['driver'], band_quadruple=first, harness_line=rr['harness_line'])
-            return
+            return 'KNOWN-K3'
     S['nviol'] += 1
     ctx.violation('voronoi_%d' % S['nviol'],
                   dict(call='GEOSVoronoiDiagram_r', family=fam, scale_exponent=k, tolerance=tol, flags=flags, env=env, geometry=gt, sites=pts, shrunk_sites=cur,
@@ -1174,6 +1212,7 @@ def report_voronoi(S, r):
                        band_quadruples_in_shrunk_sites=nb,
                        expected='every clause of VoronoiSpec (Properties_C16.C16_check_voronoi_sound) holds',
                        replay='echo "%s" | %s' % (rr['harness_line'], S['hexe']), driver_line=(rr['driver_line'] or '')[:6000], why=r['why']), msg=r['why'])
+    return 'VIOLATION'
 
 
 def do_voronoi(S, rng, n):
@@ -1201,12 +1240,13 @@ def do_voronoi(S, rng, n):
     res = eval_voronoi(S, cases)
     for r in res:
         fam, pts, tol, k, flags, env, gt = r['case']
-        st.inc('voronoi', 'family', fam); st.inc('voronoi', 'verdict', r['verdict'])
+        st.inc('voronoi', 'family', fam)
         st.inc('voronoi', 'env', 'user' if env else 'default'); st.inc('voronoi', 'ordered', 'yes' if flags & 2 else 'no')
         ctx.count(('V', r['harness_line']), r.get('ncells', 0) >= 2)
         if r['verdict'] == 'VIOLATION':
-            report_voronoi(S, r)
-            if S['nviol'] > 8:
-                return
+            r['verdict'] = report_voronoi(S, r)
+        st.inc('voronoi', 'verdict', r['verdict'])
+        if S['nviol'] > 8:
+            return
     for r in res[:1]:
         ctx.sample(r['harness_line'][:300])
